@@ -204,6 +204,13 @@ func (g *gate) Write(p []byte) (int, error) {
 	return n, err
 }
 
+// Disarm removes the remaining hold points (used before the harness itself reads the quiescent state).
+func (g *gate) Disarm() {
+	g.mu.Lock()
+	g.pauseAfter = map[int]bool{}
+	g.mu.Unlock()
+}
+
 func (g *gate) Log() []gateEv {
 	g.mu.Lock()
 	defer g.mu.Unlock()
@@ -486,6 +493,17 @@ func c19MakePlan(r *RNG, k, perClient, maxBoard int, postPct int) c19Plan {
 
 var c19Tick atomic.Int64
 
+// c19AnnounceWait: how long to wait for notifications still being appended by the outbox collector.  After a first
+// failure the wait is cut (a run against code that does not announce posts must not take hours).
+var c19AnnounceFailed atomic.Bool
+
+func c19AnnounceWait() time.Duration {
+	if c19AnnounceFailed.Load() {
+		return 300 * time.Millisecond
+	}
+	return 10 * time.Second
+}
+
 // c19RunOp executes one operation through the real handler.
 func c19RunOp(ts *TS, cc *hotline.ClientConn, o *c19Op, id uint32) {
 	o.inv = c19Tick.Add(1)
@@ -508,7 +526,7 @@ func c19RunOp(ts *TS, cc *hotline.ClientConn, o *c19Op, id uint32) {
 func c19CheckNotifications(c *Case, ts *TS, clients []*hotline.ClientConn, order []*c19Op) {
 	want := len(clients) * len(order)
 	var all []hotline.Transaction
-	waitFor(20*time.Second, func() bool {
+	if want > 0 && !waitFor(c19AnnounceWait(), func() bool {
 		all = append(all, ts.TakeOutbox()...)
 		n := 0
 		for _, t := range all {
@@ -517,7 +535,9 @@ func c19CheckNotifications(c *Case, ts *TS, clients []*hotline.ClientConn, order
 			}
 		}
 		return n >= want
-	})
+	}) {
+		c19AnnounceFailed.Store(true)
+	}
 	time.Sleep(2 * time.Millisecond)
 	all = append(all, ts.TakeOutbox()...)
 	per := map[[2]byte][]string{}
@@ -587,13 +607,6 @@ func init() {
 
 		x.Add(&Family{Name: "post-format", Quick: 400, Thor: 12000, Run: func(c *Case) { c19PostFormat(c) }})
 		x.Add(&Family{Name: "store-raw", Quick: 1500, Thor: 60000, Run: func(c *Case) { c19StoreRaw(c) }})
-		x.Add(&Family{Name: "board-concurrent", Quick: 500, Thor: 12000, Run: func(c *Case) {
-			k := 2 + c.R.Intn(7)
-			if thor && c.R.Chance(30) {
-				k = 8 + c.R.Intn(41)
-			}
-			c19BoardRun(c, k, nil)
-		}})
 		x.Add(&Family{Name: "board-forced", Quick: 400, Thor: 10000, Run: func(c *Case) {
 			k := 2 + c.R.Intn(3)
 			pauses := []int{1 + c.R.Intn(4)}
@@ -601,6 +614,13 @@ func init() {
 				pauses = append(pauses, pauses[0]+1+c.R.Intn(6))
 			}
 			c19BoardRun(c, k, pauses)
+		}})
+		x.Add(&Family{Name: "board-concurrent", Quick: 500, Thor: 12000, Run: func(c *Case) {
+			k := 2 + c.R.Intn(7)
+			if thor && c.R.Chance(30) {
+				k = 8 + c.R.Intn(41)
+			}
+			c19BoardRun(c, k, nil)
 		}})
 		x.Add(&Family{Name: "agreement-concurrent", Quick: 250, Thor: 6000, Run: func(c *Case) { c19Agreement(c, thor) }})
 	}
@@ -682,6 +702,22 @@ func c19PostFormat(c *Case) {
 		c.Note("board_len_before", len(board))
 		res, queued, p := ts.Call(cc, mkTran(hotline.TranOldPostNews, uint32(100+i), fld(hotline.FieldData, body)))
 		fileNow, ferr := os.ReadFile(filePath)
+		// (the outbox collector may still be appending the last one: wait for it)
+		if !waitFor(c19AnnounceWait(), func() bool {
+			n := 0
+			for _, t := range queued {
+				if t.Type == hotline.TranNewMsg {
+					n++
+				}
+			}
+			if n >= len(clients) {
+				return true
+			}
+			queued = append(queued, ts.TakeOutbox()...)
+			return false
+		}) {
+			c19AnnounceFailed.Store(true)
+		}
 		if p != nil {
 			c.Note("panic", fmt.Sprint(p))
 			c.Violation("post-panics", "posting to the message board panicked")
@@ -916,7 +952,7 @@ func c19BoardRun(c *Case, k int, pauses []int) {
 			}
 			go func() { wg.Wait(); close(allDone) }()
 		}
-		grace := 3 * time.Millisecond
+		grace := 25 * time.Millisecond
 		for done := false; !done; {
 			select {
 			case <-g.held:
@@ -937,10 +973,13 @@ func c19BoardRun(c *Case, k int, pauses []int) {
 	}
 
 	// quiescent state
-	final, ferr := ts.Srv.ReadMessageBoard()
+	g.Disarm()
+	fin := &c19Op{}
+	c19RunOp(ts, clients[0], fin, 9999)
+	final := fin.data
 	file, _ := os.ReadFile(filepath.Join(ts.Cfg, "MessageBoard.txt"))
-	if ferr != nil {
-		c.Violation("board-unreadable", "ReadMessageBoard failed: "+ferr.Error())
+	if !fin.replyOK {
+		c.Violation("get-messages-reply", "get-messages did not return one reply with the data field")
 		return
 	}
 	log := g.Log()
@@ -1003,10 +1042,16 @@ func c19Agreement(c *Case, thor bool) {
 	}
 	g := newGate(ts.Agree, nil, pauses...)
 	ts.Srv.Agreement = g
+	// Server.ReadAgreement is looked up dynamically so that the harness also builds against a tree without it
+	// (then every client is a real login)
+	reader, haveReader := any(ts.Srv).(interface{ ReadAgreement() []byte })
 	nLogin := 1 + r.Intn(3)
 	nDirect := r.Intn(6)
 	if thor && r.Chance(30) {
 		nLogin, nDirect = 4+r.Intn(8), 8+r.Intn(24)
+	}
+	if !haveReader {
+		nLogin, nDirect = nLogin+(nDirect+1)/2, 0
 	}
 	c.Note("agreement_len", len(text))
 	c.Note("logins", nLogin)
@@ -1057,7 +1102,7 @@ func c19Agreement(c *Case, thor bool) {
 		defer wg.Done()
 		results[i].kind = "ReadAgreement"
 		results[i].inv = c19Tick.Add(1)
-		results[i].data = ts.Srv.ReadAgreement()
+		results[i].data = reader.ReadAgreement()
 		results[i].resp = c19Tick.Add(1)
 	}
 	heldSeen := false
@@ -1099,7 +1144,7 @@ func c19Agreement(c *Case, thor bool) {
 				launch()
 				select {
 				case <-g.intrSig:
-				case <-time.After(3 * time.Millisecond):
+				case <-time.After(25 * time.Millisecond):
 				}
 				g.release <- struct{}{}
 			case <-firstDone:
